@@ -647,7 +647,7 @@ pub fn op_tag(op: &Op) -> u8 {
 }
 
 pub fn run(run: &mut Run) {
-    let n = run.cases(300_000, 20_000_000);
+    let n = run.cases(1_500_000, 60_000_000);
     run.sub(
         "ctor",
         "every address constructor on edge-biased u64 (35% uniform, 45% boundary±k for 23 boundaries incl. gap ends/2^48/2^52/2^64, 20% bit masks); oracle: independent bit predicate, accept-iff-valid, truncation idempotent + invariant under upper bits; non-trivial = input within 2^13 of a boundary; distinct by input value",
@@ -655,7 +655,7 @@ pub fn run(run: &mut Run) {
         u64_edge(),
         ctor,
     );
-    let n = run.cases(30_000, 3_000_000);
+    let n = run.cases(150_000, 6_000_000);
     run.sub(
         "prog",
         "programs of 1..24 safe operations (46 kinds: constructors, align, + - += -=, Step fwd/bwd[_checked], page/frame containing/from_start/arith/step/from_indices/start_address for all 3 sizes, PageTableEntry::addr and idt Entry::handler_addr on raw bits) over a register file; oracle: every returned value canonical / <2^52 / size-aligned; non-trivial = a step panicked/was rejected or produced a value within 2^13 of a boundary; distinct by (op kind, result class) sequence",
